@@ -40,6 +40,14 @@ from ._customization import (
     yields_frames,
 )
 from . import _extract
+import os
+
+if os.environ.get("STACKSCOPE_VERIF"):
+    from ._verif import hook as _verif_hook
+else:
+
+    def _verif_hook(*args: object) -> None:
+        pass
 
 try:
     if not TYPE_CHECKING:
@@ -93,9 +101,11 @@ glue_lock = threading.Lock()
 def add_glue_as_needed(*, _sys_modules_len_cache: list[int] = [0]) -> None:
     if len(sys.modules) == _sys_modules_len_cache[0]:
         return
+    _verif_hook("glue:after_fastpath")
     # Use a lock to avoid races between multiple threads trying to extract
     # tracebacks simultaneously
     with glue_lock:
+        _verif_hook("glue:locked")
         module_names = tuple(sys.modules)
         for module_name in module_names:
             builtin_fn = builtin_glue_pending.pop(module_name, None)
@@ -106,6 +116,8 @@ def add_glue_as_needed(*, _sys_modules_len_cache: list[int] = [0]) -> None:
             except Exception:  # module disappeared, doesn't have a dict, etc
                 module_fn = None
             try:
+                if module_fn is not None or builtin_fn is not None:
+                    _verif_hook("glue:before_call", module_name)
                 # Prefer the module-supplied glue over our builtin version
                 # in case both are present
                 if module_fn is not None:
@@ -245,6 +257,7 @@ def unwrap_stackslice(spec: StackSlice) -> Iterator[types.FrameType]:
         # called. We'll just have to accept the potential race
         # condition.
         for ident, inner_frame in sys._current_frames().items():
+            _verif_hook("stackslice:other_thread", ident, inner_frame)
             if ident != threading.get_ident():
                 frames = try_from(inner_frame)
                 if frames:
@@ -487,7 +500,9 @@ def glue_threading() -> None:
         # its frame, then it's possible that its identity was reused, and
         # we shouldn't trust the frame we get.
         was_alive = thread.is_alive()
+        _verif_hook("unwrap_thread:was_alive", thread)
         inner_frame = sys._current_frames().get(thread.ident)  # type: ignore
+        _verif_hook("unwrap_thread:got_frame", thread, inner_frame)
         if inner_frame is None or not thread.is_alive() or not was_alive:
             return []
         return StackSlice(inner=inner_frame)
